@@ -130,6 +130,18 @@ def mk_unit(be, tls, tier, table_ops=True):
                       leaves=['dynamic_check'], prop=PROP, root_name='impl_invoke_with_func_ptr', tier=tier, pre=IG, post_protos=GSTUB, root_pick=pick,
                       opts={'param_fn_stubs': {'*': 'guest_fn_stub'}, 'dtor_ghost': True}, extra_replace=['guest_fn_stub'],
                       note='scope_exit guard lowered by L-dtor: destructor call at the return; nested invocation = a non-null previous current sandbox'))
+    # the same function under L-throw: the sandboxed function may end in an exception (an abort inside a nested callback); the previous
+    # current sandbox is restored on that exit too (the guard destructor is the real scope_exit destructor, run where unwinding runs it)
+    cl_x = [cl[0], ('no_exception_in_flight_at_entry', '__CPROVER_requires(!g_exc)'), cl[1],
+            ('previous_current_sandbox_restored_on_every_exit', '__CPROVER_ensures(%s.sandbox == __CPROVER_old(%s.sandbox))' % (TD, TD)),
+            ('called_at_most_once', '__CPROVER_ensures(g_gcalls <= 1)'),
+            ('frame', '__CPROVER_assigns(g_exc, %s.sandbox, g_gcalls, g_garg0, g_armed_guards)' % TD)]
+    insts.append(Inst('c12_%s_%s_invoke_restores_on_exceptional_exit' % (be, tls), 'rlbox_sandbox<%s>& s, long a' % cls, 's.INTERNAL_invoke_with_func_ptr<int(long)>("f", (void*)0, a);', cl_x,
+                      h.replace('g_gcalls = 0;', 'g_exc = 0; g_gcalls = 0;', 1),
+                      leaves=['dynamic_check'], prop=PROP, root_name='impl_invoke_with_func_ptr', tier=tier, pre=IG + ' _Bool g_exc;\n',
+                      post_protos=GSTUB.replace('__CPROVER_assigns(g_gcalls, g_garg0)', '__CPROVER_assigns(g_exc, g_gcalls, g_garg0)'), root_pick=pick,
+                      opts={'param_fn_stubs': {'*': 'guest_fn_stub'}, 'dtor_ghost': True, 'exc_model': True}, extra_replace=['guest_fn_stub'],
+                      note='L-throw: the sandboxed function may throw; exit by exception runs the guard like unwinding does'))
     # ---- the remaining backend member functions that run between registrations: they must leave the slot table alone
     # (a registration survives destroy_sandbox / create_sandbox with its owner, C13)
     lifecycle = [('impl_destroy_sandbox', 's.destroy_sandbox();', '$ROOT(&be);')]
@@ -210,13 +222,20 @@ def units(tier):
     # dylib backend: the dispatch functions (trampolines, get_executed, invoke save/restore) on every change; its slot-table
     # functions (the same text as the no-op backend's, 64 unrolled lambdas each) in the thorough tier
     us += [mk_unit('dylib', 'lib', tier, table_ops=(tier != 'quick')), mk_unit('dylib', 'embedder', tier, table_ops=(tier != 'quick'))]
+    # the entry point handed to the sandbox is requested from the backend for the callback's GUEST signature and with the core's
+    # interceptor (contracts of C13: register_callback), the link between the backend's trampoline and the interceptor instances above
+    from . import C13
+    it = C13.register_inst(tier)
+    it.name = 'c12_register_requests_entry_point_for_guest_signature'
+    it.prop = PROP
+    us.append(Unit('C12_registration', [it]))
     return us
 
 
 ASSUMPTIONS = [
     'sequential semantics: thread_local records are one global per thread (M-lock, single thread); cross-thread interference is C18 (not claimed)',
     'calls through function pointers are recording stubs: the callee behaves arbitrarily but returns; which pointer was called and with what is recorded',
-    'L-dtor: the scope_exit guard\'s destructor runs at the return of impl_invoke_with_func_ptr (C++ scope-exit order assumed); for exits by exception the proved part is that a restoring guard is armed (ghost count of live guards == 1) whenever sandboxed code runs',
+    'L-dtor: the scope_exit guard\'s destructor runs at the return of impl_invoke_with_func_ptr (C++ scope-exit order assumed); exits by exception are modelled by L-throw (instances *_invoke_restores_on_exceptional_exit: the sandboxed function may throw, the lowered scope_exit destructor runs where unwinding would run it, the previous executing sandbox is restored)',
     'dispatch lemma (DESIGN.md C12): composed by hand from the per-function contracts: register puts (key, interceptor) in slot k and returns trampoline k; trampoline k records k and calls callbacks[k] of the current sandbox; get_executed returns (current, keys[k]); the interceptor calls keys[k] once with the executing sandbox and converted arguments',
 ]
 TRUSTED = ['$FTABLE: the specification table of entry points is the list of instantiated callback_trampoline<N,...> functions ordered by N as clang instantiated them']
